@@ -27,6 +27,7 @@ def run(ctx, rep):
     rep.run(RM.rule_sibling_guards, ctx, rep, "M2")
     rep.run(RM.rule_receiver_offset, ctx, rep, "M3")
     rep.run(RM.rule_defaults, ctx, rep, "M4")
+    rep.run(RM.rule_call_arguments_per_parameter, ctx, rep, "M4")
     rep.run(RM.rule_one_id_per_arity, ctx, rep, "M5")
     rep.run(RM.rule_group_by_name, ctx, rep, "M5")
     rep.run(RM.rule_return_shapes, ctx, rep, "M6")
